@@ -277,7 +277,9 @@ def _update_event(c, seed):
             obj = make_object(oshape, rng, cdt)
             probe = make_probe(c["probe"], shape, rng, cdt)
             pos = {"integer": (oshape[0] // 2, oshape[1] // 2), "wrapping": (1, oshape[1] - 1), "half": (4.5, 3.5), "half_b": (3.5, 6.5),
-                   "fractional": (oshape[0] // 2 + 0.3, oshape[1] // 2 - 0.35)}[c["pos"]]
+                   "fractional": (oshape[0] // 2 + 0.3, oshape[1] // 2 - 0.35),
+                   # a sub-pixel offset along ONE axis only (consecutive positions of one scan row / column)
+                   "fractional_y_only": (float(oshape[0] // 2), oshape[1] // 2 + 0.25), "fractional_x_only": (oshape[0] // 2 - 0.25, float(oshape[1] // 2))}[c["pos"]]
             pos = np.array(pos, dtype=np.float64)
             old = np.array([float(shape[0] // 2), float(shape[1] // 2)]) + (np.array([0.25, -0.4]) if c["pos"] == "fractional" and c["fix_probe"] else 0.0)
             probes_s, exit_wave = R._overlap_projection(obj, probe.copy(), pos, old)
